@@ -1358,6 +1358,8 @@ def isgeneric(t: tp.Any) -> bool:
         strobj.startswith("typing.")
         or strobj.startswith("typing_extensions.")
         or "[" in strobj
+        # `X | Y` is the same generic as `typing.Union[X, Y]`, whatever its spelling.
+        or isinstance(t, types.UnionType)
         or _safe_issubclass(t, tp.Generic)  # type: ignore[arg-type]
     )
     return is_generic
@@ -1383,7 +1385,7 @@ def issubscriptedgeneric(t: tp.Any) -> bool:
     strobj = str(t)
     og = tp.get_origin(t) or t
     is_generic = isgeneric(og) or isgeneric(t)
-    is_subscripted = "[" in strobj
+    is_subscripted = "[" in strobj or isinstance(t, types.UnionType)
     return is_generic and is_subscripted
 
 
